@@ -487,13 +487,13 @@ def run(ctx: Ctx) -> None:
         ctx.count(f"layout-iters-{min(inp['iters'], 2)}{'+' if inp['iters'] >= 2 else ''}")
         ctx.count(f"modules-{len(inp['mods'])}")
         check_layout_corr(ctx, inp)
-    for i in range(ctx.n(80, 1500)):
+    for i in range(ctx.n(80, 1000)):
         inp = gen_instance(rng, big=ctx.tier != "quick")
         inp["kappa"] = rng.choice(KAPPAS) if rng.random() < 0.3 else round(rng.uniform(0.05, 3.0), 3)
         inp["iters"] = rng.randint(6, 30 if ctx.tier == "quick" else 100)
         inp["stream"] = "long"
         check_long_run(ctx, inp)
-    for i in range(ctx.n(50, 500)):
+    for i in range(ctx.n(50, 300)):
         inp = gen_instance(rng, big=False)
         inp["centers"] = [c if c is not None else "keep" for c in inp["centers"]]
         for m in inp["mods"]:
